@@ -321,6 +321,11 @@ def class_features(cl, ver: str, mode: str, den, obs, pinned) -> dict:
         f.update(sub='neg' if s['neg'] else 'pos', sub_negesc=sne, sub_posit=spo)
     escs = {it['e'].lower() for c in ([cl] + list(cl['sub'])) for it in c['items'] if it['k'] == 'e'}
     f['esc_ic'] = bool(escs & {'i', 'c'})
+    groups = [cl] + list(cl['sub'])
+    # an escape written directly after an escaped hyphen; a range whose start is written as an escape (\n-x)
+    f['esc_after_hyphen'] = any(a['k'] == 'c' and a['c'] == 3 and b['k'] == 'e'
+                                for g in groups for a, b in zip(g['items'], g['items'][1:]))
+    f['esc_range_start'] = any(it['k'] == 'r' and it['lo'] == 1 for g in groups for it in g['items'])
     if isinstance(obs, tuple):
         f['outcome'] = ':'.join(map(str, obs))
     else:
@@ -399,7 +404,7 @@ def class_key(st):
     return (st['items'], st['neg'], st['sub'])
 
 
-ALL_ITEMS = {"NL", "SP", "HY", "5", "A", "_", "a", "b", "AS", "a-b", "A-a", "5-A", "SP-5",
+ALL_ITEMS = {"NL", "SP", "HY", "5", "A", "_", "a", "b", "AS", "a-b", "A-a", "5-A", "SP-5", "NL-AS",
              "d", "D", "s", "S", "w", "W", "i", "I", "c", "C",
              "pL", "PL", "pLu", "PLu", "pNd", "pP", "PP", "pZs", "pS", "PS", "pCc"}
 
@@ -407,7 +412,7 @@ CLASS_CONFIGS = {
     # name, XSD version, constants, fn:matches on 1/n of the classes, XSD-mode translation on 1/n
     'quick': [
         ('items2', '1.0', dict(ItemNames=ALL_ITEMS, ItemNames3=set(), SubNames=set(), MaxItems=2, MaxSubItems=1), 16, 4),
-        ('items3', '1.0', dict(ItemNames={"a", "b", "5", "NL", "AS", "a-b", "d", "D", "S", "W", "PL", "i"},
+        ('items3', '1.0', dict(ItemNames={"a", "b", "5", "NL", "AS", "HY", "a-b", "d", "D", "S", "W", "PL", "i"},
                                ItemNames3={"a", "5", "D", "S"}, SubNames=set(), MaxItems=3, MaxSubItems=1), 16, 4),
         ('items11', '1.1', dict(ItemNames={"a", "AS", "5", "i", "I", "c", "C", "d", "D", "w"}, ItemNames3=set(),
                                 SubNames=set(), MaxItems=2, MaxSubItems=1), 8, 2),
@@ -418,7 +423,7 @@ CLASS_CONFIGS = {
     ],
     'thorough': [
         ('items', '1.0', dict(ItemNames=ALL_ITEMS | {"pLl", "PLl", "PNd", "pN", "PN", "pPd", "PPd", "pPc", "pZ", "PZ",
-                                                      "pC", "PC", "PCc", "pSo", "PSo", "NL-AS", "_-AS", "a-a"},
+                                                      "pC", "PC", "PCc", "pSo", "PSo", "_-AS", "a-a"},
                               ItemNames3={"a", "5", "AS", "D", "S", "PL"},
                               SubNames=set(), MaxItems=3, MaxSubItems=1), 16, 4),
         ('items11', '1.1', dict(ItemNames=ALL_ITEMS, ItemNames3={"a", "AS", "i", "I", "c", "C", "D", "d"},
